@@ -13,7 +13,8 @@ import shutil
 from .. import common, replay, tlc, tracecheck
 
 K = {"K1": bytes(range(1, 33)), "K2": bytes(range(101, 133))}
-BAD = {"empty": b"", "short": b"0123456789abcdef", "long": b"x" * 33}
+BAD = {"empty": b"", "short": b"0123456789abcdef", "long": b"x" * 33,
+       "hex": K["K1"].hex().encode(), "hexnl": K["K1"].hex().encode() + b"\n"}
 PLAIN = bytes(range(200, 240))  # 40 bytes: longer than the key, so XOR cycling shows
 
 
@@ -62,6 +63,10 @@ class World:
         for n, k in K.items():
             if data == k:
                 return n
+        if data == K["K1"].hex().encode():
+            return "hex"
+        if data == K["K1"].hex().encode() + b"\n":
+            return "hexnl"
         if len(data) == 0:
             return "empty"
         if len(data) < 32:
@@ -237,7 +242,7 @@ def driver(cinco, seed, n_traces, length):
     traces = []
     for _ in range(n_traces):
         init = {
-            "file": {p: rng.choice(["absent", "K1", "K2", "empty", "short", "long"]) for p in ("p1", "p2")},
+            "file": {p: rng.choice(["absent", "K1", "K2", "empty", "short", "long", "hex", "hexnl"]) for p in ("p1", "p2")},
             "dirok": {"p1": True, "p2": True},
         }
         w = World(cinco, objects, path_of, init)
@@ -264,7 +269,7 @@ def driver(cinco, seed, n_traces, length):
                 elif r < 0.90:
                     if not idle or not dirok[p]:
                         continue
-                    c = rng.choice(["absent", "K1", "K2", "empty", "short", "long"])
+                    c = rng.choice(["absent", "K1", "K2", "empty", "short", "long", "hex", "hexnl"])
                     if w.file_state()[p] == c:
                         continue
                     ev = {"op": "External", "p": p, "c": c}
